@@ -313,7 +313,16 @@ def impl_e2e(case):
     fetched = []
 
     def fetcher(url):
+        # a recording fetcher whose loads all fail, in the three ways a fetcher may fail (nothing found, OSError,
+        # ValueError as the default fetcher raises for an unknown url type / wrong mime type); which one depends on
+        # the url only, so a replay sees the same behaviour
+        import zlib
         fetched.append(url)
+        k = zlib.crc32(url.encode("utf-8", "surrogatepass")) % 3
+        if k == 1:
+            raise OSError("not found: %r" % url)
+        if k == 2:
+            raise ValueError("unknown url type: %r" % url)
         return None
     try:
         p = css_parser.CSSParser(fetcher=fetcher, validate=False)
@@ -677,7 +686,9 @@ def run(ctx):
                 if d and not ctx.match_known(d[0] + " :: " + d[1]):
                     w = shrink_case({k: c[k] for k in KEYS if k in c})
                     return dict(w, kind="e2e", fails=(check_witness(w) or d)[0])
-            strs = ["".join(rng.choice(SAFE) for _ in range(rng.randint(1, 4))) for _ in range(3000)]
+            # same value set as the main oracle (in_set: what helper.string can represent)
+            strs = [x for x in ("".join(rng.choice(SAFE) for _ in range(rng.randint(1, 4))) for _ in range(3000))
+                    if in_set(x)]
             rf = ctx.pool_map(impl_fn, [("T", x, ")") for x in strs], procs=6, chunksize=500)
             for x, i in zip(strs, rf):
                 if not (isinstance(i, list) and i[0] == "URI" and i[2] == "=" + x and i[3] == "=" + x):
